@@ -44,10 +44,12 @@ func (m *C15) OnBlock(e *Env, blk *world.BlockRecord) {
 			}
 			m.nActivations++
 			e.St.Trace("activate-ok")
+			e.St.Covered(fmt.Sprintf("c15.activate.ok.everDeactivated=%v.penaltyChanged=%v", a.EverDeact, a.PenaltyA != a.PenaltyB))
 		} else {
 			if a.EverDeact && !a.WasActive && a.TooEarly(a.PenaltyA) {
 				m.nEarlyReactivationRejected++
 				e.St.Trace("activate-too-early")
+				e.St.Covered(fmt.Sprintf("c15.activate.too_early.edgePenalty=%v", a.PenaltyA >= 1<<62))
 			} else if !a.WasActive {
 				e.St.Probe("c15_activation_rejected_unexpectedly")
 			}
